@@ -656,6 +656,40 @@ theorem setReqGrad_exact (v : Bool) (w : World) (m : Nat) :
   obtain ⟨h1, h2⟩ := foldl_updPar (fun P => { P with reqGrad := v }) (parameters w (fuelOf w) m) w (parameters_nodup w _ m)
   exact ⟨h1, fun k => by rw [setReqGrad, h2 k]⟩
 
+/-! ### parameters created from existing tensors / parameters (`Parameter(t)`, `dec.w = Parameter(enc.w)`) -/
+
+/-- **A parameter made from an existing one is a new object** under a fresh id that starts as a copy of its source ... -/
+theorem wrapPar_spec (w : World) (p : Nat) (P : Par) (h : w.pars[p]? = some P) :
+    wrapPar w p = ({ w with pars := w.pars ++ [P] }, some w.pars.length) := by
+  simp [wrapPar, h]
+
+/-- ... and leaves every existing parameter (its source included) and every module as they are. -/
+theorem wrapPar_frame (w : World) (p k : Nat) (hk : k < w.pars.length) :
+    (wrapPar w p).1.pars[k]? = w.pars[k]? ∧ (wrapPar w p).1.mods = w.mods := by
+  unfold wrapPar
+  cases h : w.pars[p]? with
+  | none => simp
+  | some P => simp [List.getElem?_append_left hk]
+
+/-- **freeze / unfreeze on a node leave every parameter outside its `parameters()` alone** — the source of a wrapped copy, a copy
+    registered in another subtree -/
+theorem setReqGrad_other (v : Bool) (w : World) (m k : Nat) (h : k ∉ parameters w (fuelOf w) m) :
+    (setReqGrad v w m).pars[k]? = w.pars[k]? := by
+  rw [(setReqGrad_exact v w m).2 k]
+  cases w.pars[k]? <;> simp [h]
+
+/-- the same for `zero_grad` -/
+theorem zeroGrad_other (w : World) (m k : Nat) (h : k ∉ parameters w (fuelOf w) m) :
+    (zeroGrad w m).pars[k]? = w.pars[k]? := by
+  rw [(zeroGrad_exact w m).2 k]
+  cases w.pars[k]? <;> simp [h]
+
+/-- the setter on one parameter object changes that object only -/
+theorem setParReqGrad_other (w : World) (p k : Nat) (v : Bool) (h : k ≠ p) :
+    (setParReqGrad w p v).pars[k]? = w.pars[k]? := by
+  rw [setParReqGrad, updPar_getElem?]
+  cases w.pars[k]? <;> simp [h]
+
 /-! ### containers built from a collection of the caller (an `OrderedDict` / a list that lives on in the caller's hands) -/
 
 /-- assignment / registration on module `m` leaves every other module as it is -/
